@@ -180,4 +180,6 @@ theorem circle_outside_stroke_outside (st : PrimStyle) (c : Circle) (B : Rect)
 example : (⟨⟨-3, 2⟩, 7⟩ : Circle).InRange ∧
     (Circle.strokeArea ⟨some 1, some 2, 2, .outside⟩ ⟨⟨-3, 2⟩, 7⟩).InRange := by decide
 
+-- [V] styles whose stroke / fill area bounding boxes leave the i32 range or whose width saturates u32 (guards `InRange`, `strokeWidth < u32::MAX` false; C08's topic): carried by correspondence + oracle only
+-- [V] `StrokeStyle::Dotted` is outside the property (solid strokes only) and outside the model
 end EG.C06
